@@ -3,4 +3,5 @@ NEXT Next
 INVARIANT Conform
 INVARIANT Fuel
 INVARIANT LockStepReport
+INVARIANT DevReport
 CHECK_DEADLOCK FALSE
